@@ -3,6 +3,7 @@ package daemon
 import (
 	"context"
 	"encoding/binary"
+	"errors"
 	"net"
 
 	"github.com/samber/lo"
@@ -19,6 +20,10 @@ func gcPolicyRoutes(ctx context.Context, mac string, containerIPNet *types.IPNet
 	index, err := link.GetDeviceNumber(mac)
 	if err != nil {
 		if _, ok := err.(netlink.LinkNotFoundError); ok {
+			return nil
+		}
+		// GetDeviceNumber reports a missing interface as a wrapped link.ErrNotFound: the eni is gone, nothing to clean
+		if errors.Is(err, link.ErrNotFound) {
 			return nil
 		}
 		return err
